@@ -43,6 +43,16 @@ CLAIMED = {
             "Generated hierarchies root → t. → l.t. (signed NSEC/NSEC3 or not, 1-3 keys, key-tag collisions, DS covering a subset of keys, unsigned islands) are served by hickory's own authoritative code through a scripted upstream to the real DnssecDnsHandle under the virtual clock. For every scenario every (response of the fault-free trace, section, record, operator ∈ 17 tampering operators) is applied; double faults (uniform, constructive, forged chain link, follow-up) are sampled. Secure ⇒ genuine zone data; a record of a model-Secure zone is never Insecure; under faults on a Secure chain the outcome is error/Bogus or the genuine outcome; fault-free completeness; through a real Catalog: AD ⇒ Secure genuine answer, Bogus ∧ CD=0 ⇒ SERVFAIL.",
             "Honest data comes from hickory's own signer (TBS correctness is C05's). Ed25519 only; small hierarchies. Seven known findings (one signature per root cause in the validator) are excluded; any other deviation is a VIOLATION.",
             "DESIGN.md §7 C07"),
+    "C08": ("exploration",
+            "small-scope enumeration + property-based testing (proptest): zones × queries × claims × every subset of the genuine NSEC chain into the validator's decision procedure; soundness judged by a semantic truth model of the zone, completeness against the proofs hickory's own server attaches (direct and end-to-end)",
+            "Every depth-2 zone over a small universe (quick ≤3 owners, thorough ≤4, larger sliced; depth 3 sampled) with ENTs, wildcards, delegations and DS is rendered into the harness's zone model, which yields the truth about every query and the genuine RFC 4035 NSEC chain. For every (zone, query, claim ∈ NXDOMAIN/NODATA/wildcard answer, SOA present/absent) and every non-empty subset of the chain, verify_nsec == Secure ⇒ the claim is true in the zone. Completeness: hickory's own signed InMemoryZoneHandler behind Catalog must attach NSECs that verify_nsec (and, sampled, the real DnssecDnsHandle) accepts; hickory's chain must equal the reference chain.",
+            "Trusts refm/zonemodel.rs (truth predicate from RFC 1034 §4.3.2 / RFC 4592, not a re-reading of RFC 4035 §5.4). Thirteen known findings (ten in the NSEC validator/server, three authoritative-lookup ones shared with C10) are classified separately from the oracle and excluded by signature.",
+            "DESIGN.md §7 C08"),
+    "C09": ("exploration",
+            "small-scope enumeration + property-based testing (proptest): zones × salts/iterations/opt-out × queries × claims × every subset/mixture of NSEC3 records into the validator's decision procedure; semantic truth model, iteration-limit and foreign-record clauses, completeness against hickory's own server",
+            "As C08 with NSEC3 rings built from RFC 5155 §7.1 (own SHA-1 hashing checked against RFC 5155 Appendix A at start): salts {∅,1,8 octets}, iterations {0,1,5,=soft,>soft,>hard}, opt-out on/off. verify_nsec3 == Secure ⇒ claim true in the zone; iterations > soft ⇒ never Secure, > hard ⇒ Bogus; records of another zone or parameter set mixed in ⇒ never Secure on their strength; hickory's ring equals the reference ring; the server's own proofs are accepted directly and end-to-end.",
+            "Trusts refm/zonemodel.rs. Thirteen known findings (ten in the NSEC3 validator/server, three shared with C10) excluded by signature; a foreign-record case counts only when the genuine records alone are not accepted.",
+            "DESIGN.md §7 C09"),
     "C10": ("exploration",
             "property-based testing (proptest) + exhaustive RFC 4592 example sweep: generated zones × queries through the real Catalog, differential against an independent RFC 1034 §4.3.2 / RFC 4592 reference model",
             "Generated zones over a small universe (hosts, ENTs, wildcards at several depths, CNAME chains/loops, delegations with/without glue and DS, occluded data; unsigned / NSEC / NSEC3±opt-out) are rendered into hickory's InMemoryZoneHandler and, independently, into the harness's reference model; every query name in and around the zone × 9 qtypes × DO goes in as bytes through Request::from_bytes → Catalog::handle_request → ResponseHandle and the response is read by the harness's own wire reader. Compared: rcode, AA, answer set incl. in-zone CNAME chain and synthesised owners, no data from below a cut, referral shape, SOA on negatives, NXDOMAIN vs NODATA (ENT), RRSIG/denial presence with DO.",
